@@ -83,7 +83,27 @@ def run(ctx) -> None:
         handlers = list(tries[0].handlers) if tries else []
         cancel_h = [h for h in handlers if h.type is not None and "TimeoutError" in ast.unparse(h.type)]
         other_h = [h for h in handlers if h not in cancel_h]
-        if not cancel_h:
+        merged_h = None
+        if not cancel_h and other_h and (other_h[0].type is None or handler_names(other_h[0].type) & {"BaseException"}):
+            # one catch-all for both rows: `except BaseException as exc: if not isinstance(exc,
+            # (cancelled, TimeoutError)): log(...); return 1`
+            h0 = other_h[0]
+            hr0 = [x for x in ast.walk(h0) if isinstance(x, ast.Return)]
+            tail_ret = bool(h0.body) and isinstance(h0.body[-1], ast.Return) and is_const(h0.body[-1].value, 1)
+            if tail_ret and all(is_const(x.value, 1) for x in hr0) and not any(isinstance(x, ast.Raise) for x in ast.walk(h0)):
+                merged_h = h0
+        if merged_h is not None:
+            rep.hold("C15.R2", R, merged_h, "row 'startup cancelled / timed out' -> 1 (the catch-all handler returns 1 for every exception)")
+            matched.add("startup-cancelled")
+            # the log line may be skipped only for cancellation / timeout
+            for st_ in ast.walk(merged_h):
+                if isinstance(st_, ast.If) and any(isinstance(x, ast.Call) and call_name(x) in ("exception", "error") for b in st_.body + st_.orelse for x in ast.walk(b)):
+                    t_ = ast.unparse(st_.test)
+                    in_body = any(isinstance(x, ast.Call) and call_name(x) in ("exception", "error") for b in st_.body for x in ast.walk(b))
+                    negated = isinstance(st_.test, ast.UnaryOp) and isinstance(st_.test.op, ast.Not)
+                    only_quiet = "isinstance" in t_ and not (set(handler_names(st_.test.operand.args[1]) if negated and isinstance(st_.test.operand, ast.Call) and len(st_.test.operand.args) == 2 else handler_names(st_.test.args[1]) if isinstance(st_.test, ast.Call) and len(st_.test.args) == 2 else {"?"}) - {"TimeoutError", "<call>get_cancelled_exc_class", "<call>anyio.get_cancelled_exc_class", "CancelledError", "Cancelled"})
+                    rep.check("C15.R2", only_quiet and (negated == in_body), R, st_, "the startup error is logged unless it is a cancellation / timeout", "the startup failure log is skipped for other exceptions than cancellation / timeout")
+        elif not cancel_h:
             rep.violate("C15.R2", R, sc_await[0], "a startup timeout / a signal during startup is not mapped to exit status 1")
         else:
             h = cancel_h[0]
